@@ -17,6 +17,8 @@ PROPS = {
     },
     "C02": {
         "level": "proof", "prove": True, "ground": [],
+        "bounded": {"search": "C02", "quick": "8s", "thorough": "90s",
+                    "what": "BOUNDED cross-check (not part of the proof): Satisfies(a, [b]) against the documented single-term rule for pairs of terms built from every id of the shipped family table (plain, '+', lower case) and a sample of the other listed ids, LicenseRef / DocumentRef terms, in both orders, on the real code and the real table"},
         "assumptions": [
             "strings.EqualFold is reflexive (the only axiom used)",
             "symmetry / reflexivity of the rule are properties of the spec predicate licMatch / refMatch (symmetric by inspection); they are not mechanised as separate lemmas",
@@ -103,6 +105,8 @@ PROPS = {
     },
     "C11": {
         "level": "proof", "prove": True,
+        "bounded": {"search": "C02", "quick": "8s", "thorough": "90s",
+                    "what": "BOUNDED cross-check (not part of the proof): Satisfies(a, [b]) against the documented rule, including 'X-v1+ matches X-v2 iff v2 >= v1', for pairs built from every id of the shipped family table, on the real code and the real table"},
         "ground": ["tableShape", "rangesEntriesListed", "rangesUniquePosition", "rangesOneFamilyShape", "rangesOneVersionPerStep", "rangesAscending", "rangesFamilyComplete"],
         "assumptions": [
             "code part: the matching theorem of C02 (X-v1+ matches X-v2 iff same family position and version index(v2) >= version index(v1)), parametric in the table",
